@@ -12,7 +12,7 @@ use std::collections::{BTreeMap, BTreeSet};
 use std::panic::AssertUnwindSafe;
 use std::sync::mpsc::{channel, RecvTimeoutError, Sender};
 use std::sync::{Arc, Mutex, RwLock};
-use std::time::Duration;
+use std::time::{Duration, Instant};
 
 pub type Dyn = Arc<RwLock<Box<dyn Adapter>>>;
 
@@ -324,7 +324,7 @@ pub fn permutations(n: usize) -> Vec<Vec<usize>> {
     out
 }
 
-// ---------------------------------------------------------------- worker thread + watchdog
+// ---------------------------------------------------------------- worker threads + watchdog
 
 pub enum Ev {
     /// a scenario starts (heartbeat); `stub` and `input` describe it should it hang
@@ -334,13 +334,27 @@ pub enum Ev {
     /// appended to the report's bound text (what this run actually covered)
     Note(String),
     NotExhaustive,
+    /// this worker reports nothing more for now (done, or only waiting for sub-workers): not watched until its next Begin
+    Finished,
 }
 
-pub struct Out(pub Sender<Ev>);
+pub struct Msg {
+    pub worker: u32,
+    pub ev: Ev,
+}
+
+/// event sink of one worker thread
+pub struct Out {
+    tx: Sender<Msg>,
+    worker: u32,
+}
 
 impl Out {
+    fn send(&self, ev: Ev) {
+        let _ = self.tx.send(Msg { worker: self.worker, ev });
+    }
     pub fn begin(&self, stub: &str, input: Value) {
-        let _ = self.0.send(Ev::Begin { stub: stub.to_string(), input });
+        self.send(Ev::Begin { stub: stub.to_string(), input });
         // self-test hook for the watchdog path only: MELDA_VERIF_SELFTEST_HANG=<substring of a scenario id>
         if let Ok(pat) = std::env::var("MELDA_VERIF_SELFTEST_HANG") {
             if !pat.is_empty() && stub.contains(&pat) {
@@ -349,63 +363,134 @@ impl Out {
         }
     }
     pub fn case(&self, key: &str, nontrivial: bool) {
-        let _ = self.0.send(Ev::Case { key: key.to_string(), nontrivial });
+        self.send(Ev::Case { key: key.to_string(), nontrivial });
     }
     pub fn fail(&self, class: &str, case_id: &str, input: Value, what: &str) {
-        let _ = self.0.send(Ev::Fail { class: class.to_string(), case_id: case_id.to_string(), input, what: what.to_string() });
+        self.send(Ev::Fail { class: class.to_string(), case_id: case_id.to_string(), input, what: what.to_string() });
     }
     pub fn note(&self, s: &str) {
-        let _ = self.0.send(Ev::Note(s.to_string()));
+        self.send(Ev::Note(s.to_string()));
     }
     pub fn not_exhaustive(&self) {
-        let _ = self.0.send(Ev::NotExhaustive);
+        self.send(Ev::NotExhaustive);
+    }
+    pub fn finished(&self) {
+        self.send(Ev::Finished);
+    }
+    fn fork(&self, worker: u32) -> Out {
+        Out { tx: self.tx.clone(), worker }
     }
 }
 
-/// Runs `work` in a worker thread and books its events into `rep`. If the worker is silent for `WATCHDOG`
-/// a `hang:` failure is booked for the scenario announced last and the oracle stops (returns true).
-pub fn supervise<F>(rep: &mut Report, classes: &mut FailureClasses, work: F) -> bool
+/// Distributes `items` round-robin over `workers` sub-worker threads, each running `f(its items, its own sink)`;
+/// returns when all are done.  Every sub-worker is watched separately by the watchdog (the calling worker is not
+/// while it waits).  The library's rayon pool is shared; only the order of booked events varies between runs.
+pub fn fan_out<T, F>(out: &Out, workers: usize, items: Vec<T>, f: F)
+where
+    T: Send + 'static,
+    F: Fn(Vec<T>, &Out) + Send + Clone + 'static,
+{
+    let workers = workers.max(1);
+    let mut parts: Vec<Vec<T>> = (0..workers).map(|_| vec![]).collect();
+    for (i, it) in items.into_iter().enumerate() {
+        parts[i % workers].push(it);
+    }
+    out.finished();
+    let mut hs = vec![];
+    for (w, part) in parts.into_iter().enumerate() {
+        let o = out.fork(out.worker * 16 + w as u32 + 1);
+        let f = f.clone();
+        let h = std::thread::Builder::new().stack_size(8 << 20).spawn(move || {
+            o.begin("sub-worker start", json!({}));
+            if let Err(p) = g(|| f(part, &o)) {
+                o.fail("driver", "driver:panic", json!({}), &format!("panic outside guarded library calls: {}", p));
+            }
+            o.finished();
+        });
+        if let Ok(h) = h {
+            hs.push(h);
+        }
+    }
+    for h in hs {
+        let _ = h.join(); // never returns if a sub-worker hangs: the watchdog ends the run from the main thread
+    }
+}
+
+enum Booked {
+    Case(String, bool),
+    Fail(String, String, Value, String),
+    Note(String),
+    NotExhaustive,
+    Hang(String, Value),
+}
+
+/// runs `work` in a worker thread; every event is handed to `book`. A worker that announced a scenario and
+/// then stays silent for `WATCHDOG` is reported as hung and the run stops (threads are abandoned).
+fn drive<F>(work: F, mut book: impl FnMut(Booked)) -> bool
 where
     F: FnOnce(&Out) + Send + 'static,
 {
     let (tx, rx) = channel();
-    let h = std::thread::Builder::new().stack_size(8 << 20).spawn(move || {
-        let out = Out(tx);
+    let _h = std::thread::Builder::new().stack_size(8 << 20).spawn(move || {
+        let out = Out { tx, worker: 0 };
         if let Err(p) = g(|| work(&out)) {
             out.fail("driver", "driver:panic", json!({}), &format!("panic outside guarded library calls: {}", p));
         }
     });
-    let mut current: (String, Value) = ("start".to_string(), json!({}));
-    let mut notes: Vec<String> = vec![];
-    let mut hung = false;
+    let mut live: BTreeMap<u32, (Instant, String, Value)> = BTreeMap::new();
+    live.insert(0, (Instant::now(), "start".to_string(), json!({})));
     loop {
-        match rx.recv_timeout(WATCHDOG) {
-            Ok(Ev::Begin { stub, input }) => current = (stub, input),
-            Ok(Ev::Case { key, nontrivial }) => rep.case(&key, nontrivial),
-            Ok(Ev::Fail { class, case_id, input, what }) => classes.fail(rep, &class, &case_id, input, &what),
-            Ok(Ev::Note(s)) => notes.push(s),
-            Ok(Ev::NotExhaustive) => rep.exhaustive = false,
-            Err(RecvTimeoutError::Timeout) => {
-                hung = true;
-                rep.exhaustive = false;
-                classes.fail(
-                    rep,
-                    "hang",
-                    &format!("hang:{}", current.0),
-                    current.1.clone(),
-                    &format!("no progress for {} s in scenario {} — hang; oracle stopped", WATCHDOG.as_secs(), current.0),
-                );
-                notes.push(format!("stopped at a hang in {}", current.0));
-                break; // the worker thread is abandoned
-            }
-            Err(RecvTimeoutError::Disconnected) => {
-                if let Ok(h) = h {
-                    let _ = h.join();
+        match rx.recv_timeout(Duration::from_millis(500)) {
+            Ok(Msg { worker, ev }) => {
+                match ev {
+                    Ev::Begin { stub, input } => {
+                        live.insert(worker, (Instant::now(), stub, input));
+                    }
+                    Ev::Finished => {
+                        live.remove(&worker);
+                    }
+                    other => {
+                        if let Some(e) = live.get_mut(&worker) {
+                            e.0 = Instant::now();
+                        }
+                        match other {
+                            Ev::Case { key, nontrivial } => book(Booked::Case(key, nontrivial)),
+                            Ev::Fail { class, case_id, input, what } => book(Booked::Fail(class, case_id, input, what)),
+                            Ev::Note(s) => book(Booked::Note(s)),
+                            Ev::NotExhaustive => book(Booked::NotExhaustive),
+                            _ => {}
+                        }
+                    }
                 }
-                break;
             }
+            Err(RecvTimeoutError::Timeout) => {}
+            Err(RecvTimeoutError::Disconnected) => return false,
+        }
+        if let Some((_, (_, stub, input))) = live.iter().find(|(_, (t, _, _))| t.elapsed() > WATCHDOG) {
+            book(Booked::Hang(stub.clone(), input.clone()));
+            return true;
         }
     }
+}
+
+/// Runs `work` in a worker thread and books its events into `rep`. On a hang a `hang:` failure is booked for the
+/// scenario the silent worker announced last and the oracle stops (returns true).
+pub fn supervise<F>(rep: &mut Report, classes: &mut FailureClasses, work: F) -> bool
+where
+    F: FnOnce(&Out) + Send + 'static,
+{
+    let mut notes: Vec<String> = vec![];
+    let hung = drive(work, |b| match b {
+        Booked::Case(key, nontrivial) => rep.case(&key, nontrivial),
+        Booked::Fail(class, case_id, input, what) => classes.fail(rep, &class, &case_id, input, &what),
+        Booked::Note(s) => notes.push(s),
+        Booked::NotExhaustive => rep.exhaustive = false,
+        Booked::Hang(stub, input) => {
+            rep.exhaustive = false;
+            classes.fail(rep, "hang", &format!("hang:{}", stub), input, &format!("no progress for {} s in scenario {} — hang; oracle stopped", WATCHDOG.as_secs(), stub));
+            notes.push(format!("stopped at a hang in {}", stub));
+        }
+    });
     if !notes.is_empty() {
         rep.bound.push_str(&format!(" [this run: {}]", notes.join("; ")));
     }
@@ -417,27 +502,12 @@ pub fn replay_collect<F>(work: F) -> Vec<(String, String)>
 where
     F: FnOnce(&Out) + Send + 'static,
 {
-    let (tx, rx) = channel();
-    let _h = std::thread::Builder::new().stack_size(8 << 20).spawn(move || {
-        let out = Out(tx);
-        if let Err(p) = g(|| work(&out)) {
-            out.fail("driver", "driver:panic", json!({}), &format!("panic outside guarded library calls: {}", p));
-        }
-    });
-    let mut current = "start".to_string();
     let mut fails = vec![];
-    loop {
-        match rx.recv_timeout(WATCHDOG) {
-            Ok(Ev::Begin { stub, .. }) => current = stub,
-            Ok(Ev::Fail { case_id, what, .. }) => fails.push((case_id, what)),
-            Ok(_) => {}
-            Err(RecvTimeoutError::Timeout) => {
-                fails.push((format!("hang:{}", current), format!("no progress for {} s", WATCHDOG.as_secs())));
-                break;
-            }
-            Err(RecvTimeoutError::Disconnected) => break,
-        }
-    }
+    drive(work, |b| match b {
+        Booked::Fail(_, case_id, _, what) => fails.push((case_id, what)),
+        Booked::Hang(stub, _) => fails.push((format!("hang:{}", stub), format!("no progress for {} s", WATCHDOG.as_secs()))),
+        _ => {}
+    });
     fails
 }
 
